@@ -122,6 +122,35 @@ fn token_2022_pool(name: &str, c: &Call, v: &IxView, x: &Ctx, epoch: u64, idx: u
             out.push(viol("token_min_subceeded", idx, format!("{}: the owner received {} / {} which is below the caller's minimum {} / {}", name, x.owner_a, x.owner_b, bound_a, bound_b)));
         }
     }
+    // "for both the Anchor and the Pinocchio implementation": the Anchor implementation of the same instruction (still in the
+    // tree), on a copy of the same state, moves the same amounts into / out of the vaults and the owner's accounts - also
+    // with the bounds set exactly to what just moved (the tightest maxima / minima that can hold)
+    if out.is_empty() && !by_amounts && rt::has_anchor_twin(v.ix) {
+        let mut variants: Vec<(&str, rt::Ix)> = vec![("as sent", v.ix.clone())];
+        if v.ix.data.len() >= 40 {
+            let mut t = v.ix.clone();
+            let (ba, bb) = if inc { ((-x.owner_a).max(0) as u64, (-x.owner_b).max(0) as u64) } else { (x.owner_a.max(0) as u64, x.owner_b.max(0) as u64) };
+            t.data[24..32].copy_from_slice(&ba.to_le_bytes());
+            t.data[32..40].copy_from_slice(&bb.to_le_bytes());
+            variants.push(("with the bounds set to what the live instruction moved", t));
+        }
+        for (label, ixn) in variants {
+            let (ao, apost) = rt::exec_ix_anchor_twin(v.pre, &ixn, &rt::ExecOpts::default());
+            cov.probe("anchor_implementation_evaluated_on_token_2022_pools");
+            if !ao.ok() {
+                out.push(viol("token_amounts", idx, format!("Anchor implementation of {} L={} ({}) fails ({:#x}) where the live instruction succeeded moving {} / {} (owner) and {} / {} (vaults)", name, liq, label, ao.code, x.owner_a, x.owner_b, x.vault_a, x.vault_b)));
+                return;
+            }
+            let amt_of = |k: &Pubkey| -> Option<i128> {
+                apost.iter().find(|a| a.key == *k).filter(|a| a.data.len() >= 72).map(|a| u64::from_le_bytes(a.data[64..72].try_into().unwrap()) as i128 - token_amount(v.pre, k) as i128)
+            };
+            let got = (amt_of(&c.a("token_owner_account_a")), amt_of(&c.a("token_owner_account_b")), amt_of(&x.pre_pool.vault_a), amt_of(&x.pre_pool.vault_b));
+            if got != (Some(x.owner_a), Some(x.owner_b), Some(x.vault_a), Some(x.vault_b)) {
+                out.push(viol("token_amounts", idx, format!("Anchor implementation of {} L={} ({}) moves {:?} / {:?} (owner) and {:?} / {:?} (vaults); the live instruction moved {} / {} and {} / {}", name, liq, label, got.0, got.1, got.2, got.3, x.owner_a, x.owner_b, x.vault_a, x.vault_b)));
+                return;
+            }
+        }
+    }
 }
 
 struct Ctx<'a> {
